@@ -13,24 +13,36 @@ Model of mypy's type lattice operations for an Any-free fragment — hand-writte
 
 Fragment (`Ty`): Never, None, nominal instances of non-generic classes (`inst`) and of classes with one type
 parameter of declared variance (`gen`), unions, fixed-length tuples with fallback `builtins.tuple`, callables with
-required positional parameters and fallback `builtins.function`, int/str literals, `type[...]`.
+required positional parameters and fallback `builtins.function`, int/bytes literals, `type[...]`.
 Not in the fragment (the harness never maps such a type to a term): Any in any form (incl. bare `type`, bare
 generics, `Callable[..., T]`), protocols, TypedDicts, NamedTuples and other tuple subclasses, variadic tuples,
 type variables, overloads, enums/`bool` (literal contraction), classes with `_promote` targets inside the
-universe, metaclasses, classes defining `__call__`.
+universe (`float`), metaclasses, classes defining `__call__`, classes used as a constant base argument that
+have generic bases themselves (`class str(Sequence[str])`), `Type[...]` of tuples / builtins / abstract classes.
+Where the real result of an operation leaves the fragment (`join_types(Literal[1], Type[A])` is `Any`) the
+model's value is not compared.
 
 The class hierarchy is a parameter (`Hier`): the harness exports it from the real `TypeInfo`s of the fixture
-(`mro`, `bases`, `map_instance_to_supertype`, declared variance) and the driver checks the hypotheses the
-theorems need (`Hier.okOn`) on that concrete table on every run.
+(`mro`, `bases`, `map_instance_to_supertype`, declared variance; protocol ancestors such as `typing.Collection`
+are contracted out) and the driver checks the hypotheses the theorems need (`Hier.ok`) on that concrete table
+on every run.
 
-`Type.__eq__` on unions compares item *sets*; the model compares terms structurally (`Ty.beq`).  The `==`
-fast paths of the code are semantically redundant for reflexive relations, so this is not observable; the
-correspondence includes permuted unions to check exactly that.
+Modelling decisions (each exercised by the correspondence):
+* `Type.__eq__` on unions compares item *sets*; the model compares terms structurally (`Ty.beq`).  The `==`
+  fast paths of the code are semantically redundant for reflexive relations, so this is not observable; the
+  universe contains permuted unions to check exactly that.
+* The fast paths of `visit_union_type` (`fast_check`, literal de-duplication) are subsumed by the item loop.
+* `join_types(t, self.s)` / `meet_types(t, self.s)` inside `visit_instance` (re-dispatch with swapped operands)
+  are replaced by a direct call of the other operand's visitor method (see `joinVisitInstance`).
+* `InstanceJoiner.seen_instances` (recursion guard for recursive generic bases), promotions and the protocol
+  bases consulted by `join_instances_via_supertype` do not arise in the fragment and are not modelled.
+* `can_be_true` / `can_be_false` are those of declared types (`joinTruthiness`).
 
 Recursion: every mutually recursive group is written as a non-recursive *step functional* over the recursive
 calls (`subStep`, `joinInstStep`, `joinStep`, `meetStep`) iterated by structural recursion on a fuel `Nat`
-that the wrappers initialise from a size measure; Proofs/Types.lean shows the fuel is always sufficient
-(`isSubtype_unfold`, …), so the wrappers satisfy the step equations and nothing else about fuel is used.
+that the wrappers initialise from a size measure; Proofs/Types.lean and Proofs/TypesJoinFuel.lean show the
+fuel is always sufficient (`S_unfold`, `join_unfold`, `meet_unfold`), so the wrappers satisfy the step
+equations and nothing else about fuel is used.
 -/
 namespace Types
 
